@@ -392,6 +392,10 @@ class HRDAGAnalyzer(DAGAnalyzer):
         """
         if getattr(node, "_hr_sorted", False):
             return
+        # The dependency order is an evaluation detail: remember where each rule was written,
+        # so that the ruleset can be rendered as it was defined.
+        for position, rule in enumerate(node.rules):
+            rule._source_position = position  # type: ignore[attr-defined]
         dag = cls()
         dag.visit(node)
         dag.load_vertex()
